@@ -5,7 +5,8 @@
    (shaped like activation.py) are compared with the declarative selection written from the property. *)
 EXTENDS Engine, TLC, Json
 CONSTANTS KMax, WithNaN, Emit,
-          TieReversed     \* canary: declarative selection breaking ties by *reverse* insertion order
+          TieReversed,    \* canary: declarative selection breaking ties by *reverse* insertion order
+          BigK            \* 0, or the size of one large block: instead of all small cases, blocks of BigK rules with many equal degrees
 DegPal == { Zero, Q(1,4), Half, Q(3,4), One } \cup (IF WithNaN THEN {NaN} ELSE {})
 Thresholds == { Zero, Q(1,4), Q(3,8), Half, One }
 Comparators == { "<", "<=", "==", "!=", ">=", ">" }
@@ -20,8 +21,16 @@ Patterns(k) == { [en |-> [i \in 1..k |-> TRUE], ld |-> [i \in 1..k |-> TRUE]] }
           \cup { [en |-> [i \in 1..k |-> i # j], ld |-> [i \in 1..k |-> TRUE]] : j \in 1..k }
           \cup { [en |-> [i \in 1..k |-> TRUE], ld |-> [i \in 1..k |-> i # j]] : j \in 1..k }
 Ramp01 == [name |-> "t", k |-> "Ramp", p |-> <<Zero, One>>, h |-> One]
-UName(i) == <<"u1", "u2", "u3", "u4", "u5">>[i]
-IName(i) == <<"in1", "in2", "in3", "in4", "in5">>[i]
+UName(i) == "u" \o ToString(i)
+IName(i) == "in" \o ToString(i)
+\* large blocks: degree vectors with many ties - a pattern of period 5, all equal, descending steps, ascending steps with zeros
+BigDegs(kk) == { [i \in 1..kk |-> Q((i * 7) % 5, 4)], [i \in 1..kk |-> Half], [i \in 1..kk |-> Q(4 - ((i \div 9) % 5), 4)],
+                 [i \in 1..kk |-> IF i % 3 = 0 THEN Zero ELSE Q(((i \div 7) % 4) + 1, 4)] }
+BigActs(c, kk) ==
+  CASE c \in {"General", "Proportional"} -> Acts(c, kk)
+    [] c \in {"First", "Last"} -> { a \in Acts(c, kk) : a.rules \in {1, 7, kk - 1} /\ a.threshold \in {Zero, Half} }
+    [] c \in {"Highest", "Lowest"} -> { a \in Acts(c, kk) : a.rules \in {1, 2, 7, 17, kk - 1, kk + 1} }
+    [] c = "Threshold" -> { a \in Acts(c, kk) : a.threshold \in {Half, Zero} }
 Eng(k, act, pat) ==
   [name |-> "c08",
    inputs |-> [i \in 1..k |-> [name |-> IName(i), enabled |-> TRUE, min |-> Zero, max |-> One, lockRange |-> FALSE, terms |-> <<Ramp01>>]],
@@ -35,10 +44,11 @@ Eng(k, act, pat) ==
 
 VARIABLES k, cls, pat, act, degs, ready, m      \* m: the machine's result, computed once per case
 vars == <<k, cls, pat, act, degs, ready, m>>
-Init == /\ k \in 1..KMax /\ cls \in Methods /\ pat \in Patterns(k) /\ ready = FALSE
+Init == /\ (IF BigK > 0 THEN k = BigK ELSE k \in 1..KMax) /\ cls \in Methods /\ ready = FALSE
+        /\ pat \in (IF BigK > 0 THEN { [en |-> [i \in 1..k |-> TRUE], ld |-> [i \in 1..k |-> TRUE]], [en |-> [i \in 1..k |-> i # 2], ld |-> [i \in 1..k |-> i # k - 1]] } ELSE Patterns(k))
         /\ act = [cls |-> cls, rules |-> 0, threshold |-> Zero, comparator |-> ">"] /\ degs = <<>> /\ m = <<>>
 Next == /\ ~ready /\ ready' = TRUE /\ UNCHANGED <<k, cls, pat>>
-        /\ act' \in Acts(cls, k) /\ degs' \in [1..k -> DegPal]
+        /\ act' \in (IF BigK > 0 THEN BigActs(cls, k) ELSE Acts(cls, k)) /\ degs' \in (IF BigK > 0 THEN BigDegs(k) ELSE [1..k -> DegPal])
         /\ LET e == Eng(k, act', pat) IN m' = ActivateBlock(e, SetInputs(e, Fresh(e), degs'), 1)
 Spec == Init /\ [][Next]_vars
 
@@ -65,18 +75,21 @@ Fired == CASE cls = "General"      -> { i \in RIdx : pat.ld[i] }
            [] cls = "Lowest"       -> { i \in Positive : RankLow(Positive, i) < act.rules }
            [] cls = "Proportional" -> Positive
            [] cls = "Threshold"    -> { i \in RIdx : pat.ld[i] /\ Cmp(act.comparator, D(i), act.threshold) }
-FireRank(i) == CASE cls \in {"General", "First", "Proportional", "Threshold"} -> RankFwd(Fired, i)
-                 [] cls = "Last" -> RankRev(Fired, i)
-                 [] cls = "Highest" -> RankHigh(Fired, i)
-                 [] cls = "Lowest" -> RankLow(Fired, i)
+FireRank(i) == CASE cls \in {"General", "First", "Proportional", "Threshold"} -> i
+                 [] cls = "Last" -> 0 - i
+                 [] cls = "Highest" -> RankHigh(Positive, i)
+                 [] cls = "Lowest" -> RankLow(Positive, i)
 SumPos == FoldSet(LAMBDA i, acc : Add(acc, D(i)), Zero, Positive)
 FinalDeg(i) == IF cls = "Proportional" /\ i \in Positive THEN Div(D(i), SumPos) ELSE D(i)
 Contributing == { i \in Fired : pat.en[i] }
 \* expected fuzzy output: one activation per contributing rule, in firing order
-ExpFuzzy == [r \in 1..Cardinality(Contributing) |->
-               LET i == CHOOSE j \in Contributing : Cardinality({ q \in Contributing : FireRank(q) < FireRank(j) }) = r - 1
-               IN [term |-> UName(i), degree |-> NanToNum01(FinalDeg(i)), impl |-> "Minimum"]]
-ExpTrig == [i \in RIdx |-> i \in Contributing /\ Gt(FinalDeg(i), Zero)]
+ExpFuzzy == LET cs  == Contributing
+                fr  == [i \in cs |-> FireRank(i)]
+                pos == [j \in cs |-> Cardinality({ q \in cs : fr[q] < fr[j] })]
+            IN [r \in 1..Cardinality(cs) |->
+                  LET i == CHOOSE j \in cs : pos[j] = r - 1
+                  IN [term |-> UName(i), degree |-> NanToNum01(FinalDeg(i)), impl |-> "Minimum"]]
+ExpTrig == LET cs == Contributing IN [i \in RIdx |-> i \in cs /\ Gt(FinalDeg(i), Zero)]
 ExpDeg == [i \in RIdx |-> FinalDeg(i)]
 
 MachineEqualsSelection == ready =>
@@ -84,7 +97,7 @@ MachineEqualsSelection == ready =>
    /\ M.trig[1] = ExpTrig
    /\ [r \in 1..Len(M.fuzzy[1]) |-> [term |-> M.fuzzy[1][r].term.name, degree |-> M.fuzzy[1][r].degree, impl |-> M.fuzzy[1][r].impl]] = ExpFuzzy
 \* no other rule contributes; a rule is marked triggered only if its degree is positive
-NoOtherContributes == ready => \A r \in 1..Len(M.fuzzy[1]) : \E i \in Contributing : M.fuzzy[1][r].term.name = UName(i)
+NoOtherContributes == ready => LET cs == Contributing IN \A r \in 1..Len(M.fuzzy[1]) : \E i \in cs : M.fuzzy[1][r].term.name = UName(i)
 TriggeredOnlyPositive == ready => \A i \in RIdx : M.trig[1][i] => Gt(M.deg[1][i], Zero)
 AtMostN == (ready /\ cls \in {"First", "Last", "Highest", "Lowest"}) => Cardinality(Fired) <= act.rules
 EmitInv == (Emit /\ ready) => PrintT(ToJson([k |-> k, act |-> act, en |-> pat.en, ld |-> pat.ld, degs |-> degs,
